@@ -2,6 +2,8 @@ import CgtModel.Report
 import CgtModel.Props.C02
 import CgtModel.Props.C03
 import CgtModel.Props.C04
+import CgtModel.Props.C01
+import CgtModel.Lemmas.SpecTwin
 /-! # C10 — splits only rescale share counts; they never create gain, loss or cost
 
 Statement: a SPLIT/UNSPLIT changes the number of shares held and nothing else: rewriting a ledger in
@@ -19,13 +21,22 @@ Proved for the model:
 * `C10_proceeds_never_depend_on_splits` — the proceeds of a SELL's legs are quantity × price − fees of
   that line (C04).
 Together: total gains + closing cost of a history are the same whatever splits it contains.
-Not proved: the per-disposal equality with the post-split twin (a simulation between the run and the
-run of the rescaled day list); it is checked on the real code for every generated ledger and every
-split line. Known finding D5 (cost pre-pass ignores splits) is excluded from the twin comparison by
-class `splitBeforeCostEvent`.
+* **the post-split twin** — `Spec.identifyTbl_gauge` (`Lemmas/SpecGauge.lean`): units are a gauge of the
+  statutory evaluation: counting day `i`'s shares in units `g i` times finer (quantities × `g i`, split
+  factors × `g (i+1) / g i`, money untouched) changes no disposal's proceeds or gain and no leg's rule,
+  allowable cost or acquisition date, and only rescales the closing quantity; `Spec.identify_twin`
+  (`Lemmas/SpecTwin.lean`): rewriting the trades dated on or before a split day in post-split units and
+  neutralising the split line is such a change of gauge of the day table built from the raw lines;
+  `C10_ledger_twin`: hence, for the matcher model from the raw ledger (through `C01_ledger_raw`): if the
+  ledger and its twin are validator-clean, have valid dates and are accepted, a security without capital
+  events whose SELL lines fall on different days has, leg for leg and in order, the same rule, allowable
+  cost and acquisition date in both, and the same closing quantity and cost.
+  Outside that class (capital events: known finding D5; several SELL lines on one day) the twin is
+  compared on the real code only. The twin keeps the split line as a ratio-1 split (the property removes
+  it: a day with no trade and factor 1 is transparent, `C10_factor_one_day_is_transparent`).
 -/
 namespace Cgt.C10
-open Cgt
+open Cgt Spec
 
 theorem C10_split_unsplit_same_day_cancel (d : Day) (i j : Nat) (r : Rat) (hr : r ≠ 0) :
     (d.add i (.split r)).add j (.unsplit r) = d := by
@@ -63,5 +74,152 @@ theorem C10_proceeds_never_depend_on_splits (t : String) (w : Int) (d : Day) (st
     legGross legs = s.q * s.p ∧ legNet legs = s.q * s.p - s.f ∧
       legGain legs = legNet legs - legCost legs :=
   C04.C04_sell_proceeds t w d st s future cl st' cl' legs hr hpos ha hp hs hc h
+
+/-! ### the post-split twin -/
+
+/-- the lines of security `t` dated on or before day number `D` in post-split units; other lines as they are -/
+def twinLine (t : String) (D : Int) (ρ : Rat) (x : Tx) : Tx := if x.ticker = t then twinTx D ρ x else x
+
+theorem twinLine_ticker (t : String) (D : Int) (ρ : Rat) (x : Tx) : (twinLine t D ρ x).ticker = x.ticker := by
+  unfold twinLine; split <;> rfl
+theorem twinLine_date (t : String) (D : Int) (ρ : Rat) (x : Tx) : (twinLine t D ρ x).date = x.date := by
+  unfold twinLine; split <;> rfl
+
+theorem table_twinLine (t : String) (D : Int) (ρ : Rat) (l : List Tx) :
+    table t (l.map (twinLine t D ρ)) = table t (l.map (twinTx D ρ)) := by
+  unfold table
+  congr 1
+  induction l with
+  | nil => rfl
+  | cons x xs ih =>
+    simp only [List.map_cons, List.filter_cons, twinLine_ticker]
+    have : (twinTx D ρ x).ticker = x.ticker := rfl
+    rw [this]
+    by_cases h : x.ticker = t
+    · simp only [h, decide_true, if_true, ih]; simp [twinLine, h]
+    · simp only [h, decide_false, Bool.false_eq_true, if_false, ih]
+
+theorem identify_twinLine (w : Int) (t : String) (D : Int) (ρ : Rat) (l : List Tx) (x : Tx) (hx : x.ticker = t) :
+    identify w t (l.map (twinLine t D ρ) ++ [x]) = identify w t (l.map (twinTx D ρ) ++ [x]) := by
+  unfold identify
+  rw [table_snoc t _ x hx, table_snoc t _ x hx, table_twinLine]
+
+def legMoneyM (l : Leg) : Rule × Rat × Option Date := (l.rule, l.cost, l.acq)
+
+theorem legs_money_of_views (legs : List Leg) (ds : List SDisposal)
+    (h : legs.map legView = ds.flatMap (fun dsp => dsp.legs.map slegView)) :
+    legs.map legMoneyM = (ds.map (fun dsp => dsp.legs.map legMoney)).flatten := by
+  have := congrArg (List.map (fun v : Rule × Rat × Rat × Option Date => (v.1, v.2.2.1, v.2.2.2))) h
+  rw [List.map_map] at this
+  have e1 : ((fun v : Rule × Rat × Rat × Option Date => (v.1, v.2.2.1, v.2.2.2)) ∘ legView) = legMoneyM := by
+    funext l; rfl
+  rw [e1] at this
+  rw [this, List.flatMap_def, List.map_flatten, List.map_map]
+  congr 2
+  funext dsp
+  simp only [Function.comp, List.map_map]
+  rfl
+
+theorem twinOp_ok (early : Bool) (ρ : Rat) (hρ : 0 < ρ) (op : Op) (h : opOk op) : opOk (twinOp early ρ op) := by
+  cases early with
+  | false => cases op <;> simpa [twinOp] using h
+  | true =>
+    cases op <;> simp only [twinOp, if_true] <;> try exact h
+    · exact ⟨Rat.mul_pos h.1 hρ, rat_div_nonneg h.2.1 hρ, h.2.2⟩
+    · exact ⟨Rat.mul_pos h.1 hρ, rat_div_nonneg h.2.1 hρ, h.2.2⟩
+
+theorem twinLine_isSell (t : String) (D : Int) (ρ : Rat) (x : Tx) : (twinLine t D ρ x).op.isSell = x.op.isSell := by
+  unfold twinLine twinTx
+  split
+  · simp only; cases x.op <;> simp only [twinOp] <;> (try split) <;> rfl
+  · rfl
+
+theorem twinLine_isEvent (t : String) (D : Int) (ρ : Rat) (x : Tx) : (twinLine t D ρ x).op.isEvent = x.op.isEvent := by
+  unfold twinLine twinTx
+  split
+  · simp only; cases x.op <;> simp only [twinOp] <;> (try split) <;> rfl
+  · rfl
+
+/-- **C10, the post-split twin, for the matcher model from the raw ledger.** `l0` followed by
+    `SPLIT t RATIO ρ` on day `D`, against the same lines with `t`'s trades dated on or before `D` in
+    post-split units and a ratio-1 split: if both ledgers are validator-clean with valid dates and
+    accepted, and `t` has no capital events and its SELL lines fall on different days, then `t`'s legs have,
+    one for one and in order, the same rule, allowable cost and acquisition date, and the closing pool has
+    the same quantity and cost. -/
+theorem C10_ledger_twin (t : String) (D : Date) (ρ : Rat) (hρ : 0 < ρ) (l0 : List Tx)
+    (hw : WellFormed (l0 ++ [⟨D, t, .split ρ⟩])) (hd : Spec.DatesOk (l0 ++ [⟨D, t, .split ρ⟩]))
+    (hne : noEventLines t (l0 ++ [⟨D, t, .split ρ⟩])) (hone : oneSellPerDay t (l0 ++ [⟨D, t, .split ρ⟩]))
+    (rs rs' : List TickerResult)
+    (h : run bnbWindowDays (l0 ++ [⟨D, t, .split ρ⟩]) = .ok rs)
+    (h' : run bnbWindowDays (l0.map (twinLine t D.ord ρ) ++ [⟨D, t, .split 1⟩]) = .ok rs') :
+    ∀ r ∈ rs, ∀ r' ∈ rs', r.ticker = t → r'.ticker = t →
+      r'.legs.map legMoneyM = r.legs.map legMoneyM ∧ poolQ' r'.pool = poolQ' r.pool ∧ poolC' r'.pool = poolC' r.pool := by
+  intro r hr r' hr' ht ht'
+  -- the twin ledger meets the same hypotheses
+  have hw' : WellFormed (l0.map (twinLine t D.ord ρ) ++ [⟨D, t, .split 1⟩]) := by
+    intro x hx
+    simp only [List.mem_append, List.mem_map, List.mem_singleton] at hx
+    rcases hx with ⟨y, hy, rfl⟩ | rfl
+    · have hyok : TxOk y := hw y (by simp [hy])
+      unfold twinLine; split
+      · exact twinOp_ok _ ρ hρ y.op hyok
+      · exact hyok
+    · show (0 : Rat) < 1; decide
+  have hd' : Spec.DatesOk (l0.map (twinLine t D.ord ρ) ++ [⟨D, t, .split 1⟩]) := by
+    intro x hx
+    simp only [List.mem_append, List.mem_map, List.mem_singleton] at hx
+    rcases hx with ⟨y, hy, rfl⟩ | rfl
+    · rw [twinLine_date]; exact hd y (by simp [hy])
+    · exact hd ⟨D, t, .split ρ⟩ (by simp)
+  have hne' : noEventLines t (l0.map (twinLine t D.ord ρ) ++ [⟨D, t, .split 1⟩]) := by
+    intro x hx hxt
+    simp only [List.mem_append, List.mem_map, List.mem_singleton] at hx
+    rcases hx with ⟨y, hy, rfl⟩ | rfl
+    · rw [twinLine_isEvent]; rw [twinLine_ticker] at hxt; exact hne y (by simp [hy]) hxt
+    · rfl
+  have hone' : oneSellPerDay t (l0.map (twinLine t D.ord ρ) ++ [⟨D, t, .split 1⟩]) := by
+    unfold oneSellPerDay at hone ⊢
+    have e : sellOrds t (l0.map (twinLine t D.ord ρ) ++ [⟨D, t, .split 1⟩]) = sellOrds t (l0 ++ [⟨D, t, .split ρ⟩]) := by
+      rw [sellOrds_append, sellOrds_append]
+      congr 1
+      induction l0 with
+      | nil => rfl
+      | cons y ys ih =>
+        simp only [List.map_cons, sellOrds_cons]
+        rw [show sellOrds t (List.map (twinLine t D.ord ρ) ys) = sellOrds t ys from by
+          have : ∀ zs : List Tx, sellOrds t (zs.map (twinLine t D.ord ρ)) = sellOrds t zs := by
+            intro zs; induction zs with
+            | nil => rfl
+            | cons z zs ihz =>
+              simp only [List.map_cons, sellOrds_cons, ihz]
+              congr 1
+              simp only [so, twinLine_ticker, twinLine_isSell, Tx.ord, twinLine_date]
+          exact this ys]
+        congr 1
+        simp only [so, twinLine_ticker, twinLine_isSell, Tx.ord, twinLine_date]
+    rw [e]; exact hone
+  have c := C01.C01_ledger_raw _ hw hd rs h r hr (ht ▸ hne) (ht ▸ hone)
+  have c' := C01.C01_ledger_raw _ hw' hd' rs' h' r' hr' (ht' ▸ hne') (ht' ▸ hone')
+  simp only at c c'
+  rw [ht] at c; rw [ht'] at c'
+  rw [identify_twinLine bnbWindowDays t D.ord ρ l0 ⟨D, t, .split 1⟩ rfl] at c'
+  obtain ⟨m1, m2, m3⟩ := identify_twin bnbWindowDays t D ρ hρ l0
+  refine ⟨?_, ?_, ?_⟩
+  · rw [legs_money_of_views _ _ c'.2.2, legs_money_of_views _ _ c.2.2]
+    have : ∀ (ds : List SDisposal), ds.map (fun dsp => dsp.legs.map legMoney) = (ds.map dispMoney).map (fun v => v.2.2.2.2) := by
+      intro ds; rw [List.map_map]; rfl
+    rw [this, this, m1]
+  · rw [← c'.1, ← c.1, m2]
+  · rw [← c'.2.1, ← c.2.1, m3]
+
+
+-- non-vacuity: a history with a same-day and a 30-day match before a 2-for-1 split meets the hypotheses
+def exL0 : List Tx :=
+  [ ⟨⟨2024, 1, 1⟩, "A", .buy 100 4 1⟩, ⟨⟨2024, 2, 1⟩, "A", .sell 40 6 0⟩, ⟨⟨2024, 2, 10⟩, "A", .buy 10 5 1⟩,
+    ⟨⟨2024, 4, 1⟩, "A", .sell 20 3 0⟩, ⟨⟨2024, 2, 10⟩, "B", .buy 5 2 0⟩ ]
+example : WellFormed (exL0 ++ [⟨⟨2024, 3, 1⟩, "A", .split 2⟩]) ∧ noEventLines "A" (exL0 ++ [⟨⟨2024, 3, 1⟩, "A", .split 2⟩]) ∧
+    oneSellPerDay "A" (exL0 ++ [⟨⟨2024, 3, 1⟩, "A", .split 2⟩]) ∧
+    (exL0.map (twinLine "A" (⟨2024, 3, 1⟩ : Date).ord 2)).map (·.op) =
+      [.buy 200 2 1, .sell 80 3 0, .buy 20 (5/2) 1, .sell 20 3 0, .buy 5 2 0] := by decide +kernel
 
 end Cgt.C10
